@@ -100,6 +100,9 @@ func runC05(c *CaseCtx) *CaseResult {
 	cc.Mon = MonCfg{TreeEvery: 1, DeepEvery: 151, RefEvery: 61, ReachEvery: 50, ColdAtCommit: true, DirtyEvery: 6}
 	cc.CommitEvery = 300
 	cc.DrainAtEnd = c.Case%3 != 0
+	if c.Case%7 >= 5 {
+		cc.BatchStart = []int{2, 3, 4, 5, 7, 12, 40, 150}[r.Intn(8)]
+	}
 	cc.EvictEvery = c.Case / 2 % 2
 	// set-heavy churn: growth and shrink of elements in place (overflow / underflow after update)
 	cc.Phases = scalePhases(ops,
